@@ -16,7 +16,7 @@ LEVEL = "exploration"
 RULE = ("each run = one seeded call-tree program (2-25 nodes, depth <= 8, fan-out <= 3, node side A/B, argument shapes: immutable scalars, "
         "nested tuples mixing values and references, boxes by reference, callables, keyword arguments; result shapes value / mixed tuple / "
         "reference; raise sites and catch sites) executed in-process and distributed (every cross-side edge a real remote call; nesting "
-        "alternates direction and relies on re-entrant serve) under a seeded link schedule with GC events; non-trivial = at least one "
+        "alternates direction and relies on re-entrant serve) under a seeded link schedule (reference-count driven HANDLE_DEL traffic interleaves with the calls); non-trivial = at least one "
         "cross-side edge at depth >= 2 or an exception crossing the wire; distinct = distinct program digests")
 STATE_MEASURE = "distinct (max cross-side nesting depth, #remote edges, #exceptions crossing, #references crossing) tuples"
 REAL = ["rpyc.core.protocol.Connection (boxing, dispatch, re-entrant serve, handlers)", "rpyc.core.netref", "rpyc.core.async_", "brine/vinegar",
@@ -131,8 +131,8 @@ class Interp(object):
         self.counts[nid] = self.counts.get(nid, 0) + 1
         self.stats["maxdepth"] = max(self.stats["maxdepth"], xdepth)
         self.seen.append((nid, tuple(self.describe(a) for a in args), tuple(sorted((k, self.describe(v)) for k, v in kwargs.items()))))
-        if node["gc"] and self.sim is not None:
-            gc.collect()
+        # (no explicit GC events here: both peers share one heap in the simulator, and a collection run by one
+        #  peer's thread would finalize the other peer's garbage proxies, i.e. do I/O on the wrong connection)
         mine = self.newbox(side)
         refs = [mine]
         cbs = []
